@@ -218,6 +218,21 @@ Proof.
     intro H; try discriminate; cases_ltb; try lra; try discriminate.
 Qed.
 
+(* BS: min_dt / max_dt act on the PROPOSED step only: with both limits set (0 < min <= max) the proposed step lies between them, with
+   neither set it is the controller's value; the attempted step is the caller's argument (tied by the trace, not a theorem) *)
+Theorem bs_clamp_range : forall mn mx d fw, 0 < mn <= mx -> 0 <= d ->
+  mn <= Rabs (bs_clamp RNum mn mx d fw) <= mx.
+Proof.
+  intros mn mx d fw [Hm Hmx] Hd. unfold bs_clamp. cbn [neqb nltb nzero nneg RNum]. unfold Reqb.
+  destruct (Req_EM_T mn 0); [lra|]. destruct (Req_EM_T mx 0); [lra|]. cbn [negb andb].
+  cases_ltb; destruct fw; rewrite ?Rabs_Ropp; try (rewrite Rabs_right by lra); lra.
+Qed.
+Theorem bs_clamp_off : forall d fw, 0 <= d -> Rabs (bs_clamp RNum 0 0 d fw) = d.
+Proof.
+  intros d fw Hd. unfold bs_clamp. cbn [neqb nltb nzero nneg RNum]. unfold Reqb. destruct (Req_EM_T 0 0); [|lra]. cbn [negb andb].
+  destruct fw; rewrite ?Rabs_Ropp; apply Rabs_right; lra.
+Qed.
+
 (* the theorems above are stated for safety_factor = 1/4, stepControl2 = 0.94, stepControl4 = 4: these are the values of the
    current source (regenerated); a change of any controller constant breaks this lemma *)
 Lemma controller_constants_pinned :
